@@ -172,7 +172,7 @@ def run_chunk(jobs, path, atomics):
     return incidents
 
 
-VIOL_RE = re.compile(r'<<\s*"TRACE_(\w+)_VIOLATION",\s*(\d+),\s*(\d+),\s*"(\w+)",\s*"(.*)"\s*>>')
+VIOL_RE = re.compile(r'<<\s*"TRACE_(\w+)_VIOLATION",\s*(\d+),\s*(\d+),\s*"([\w+]+)",\s*"(.*)"\s*>>')
 DONE_RE = re.compile(r'<<\s*"TRACE_(\w+)_DONE",\s*(\d+),\s*(\d+),\s*(\d+)\s*>>')
 
 
@@ -308,7 +308,7 @@ def write_replay(v, job):
           "stale": job.get("stale", []), "orig_sched": job["sched"],
           "property": v["prop"], "why": v["why"], "spec": v["spec"], "event": v["ev"], "key": viol_key(v)}
     h = hashlib.sha256(json.dumps([rj["prog"], rj["sched"]], sort_keys=True).encode()).hexdigest()[:12]
-    p = os.path.join(REPLAYS, "%s-%s.json" % (v["prop"], h))
+    p = os.path.join(REPLAYS, "%s-%s.json" % (v["prop"].replace("+", "_"), h))
     with open(p, "w") as f:
         json.dump(rj, f)
     return p
@@ -321,7 +321,7 @@ def replay(pid, path):
     try:
         specs = ("Trace_Abs", "Trace_Mem") if os.path.exists(os.path.join(SPEC, "Trace_Mem.tla")) else ("Trace_Abs",)
         res = run_and_validate([rj], "replay", wd, atomics="all", specs=specs, nproc=1)
-        hit = [v for v in res["viols"] if v["prop"] == pid]
+        hit = [v for v in res["viols"] if pid in v["prop"].split("+")]
         for v in res["viols"]:
             print("replayed: property=%s %s (%s)" % (v["prop"], v["why"], json.dumps(v["ev"])))
         if hit:
@@ -378,6 +378,7 @@ def conc_stage(tier, seed, key):
         nid += len(js)
         jobs += js
     jobs += gen.directed(start_id=nid, seed=seed, tier=tier)
+    jobs += gen.sandwich(tier)
     for i, j in enumerate(jobs):
         j["id"] = i
     with open(os.path.join(wd, "jobs.ndjson"), "w") as f:
@@ -473,7 +474,7 @@ def check(pid, tier, seed):
             traces = summ["execs"]
             nt = non_trivial_stats(summ["files"], pid)
             for v in summ["viols"]:
-                if v["prop"] == pid:
+                if pid in v["prop"].split("+"):
                     viols.append(v)
                 elif v["prop"] == "HARNESS":
                     raise ToolError("harness/oracle inconsistency: %s %s" % (v["why"], json.dumps(v["ev"])))
@@ -490,7 +491,7 @@ def check(pid, tier, seed):
         kf = known_findings()
         real = []
         for v in viols:
-            hit = [k for k in kf if k["prop"] == pid and re.search(k["key"], v.get("key", ""))]
+            hit = [k for k in kf if k["prop"] in v["prop"].split("+") and re.search(k["key"], v.get("key", ""))]
             if hit:
                 known_hits.append((hit[0], v))
             else:
